@@ -1457,7 +1457,8 @@ def parse_bankacctinfos(acctinfos: Sequence[models.BANKACCTINFO]) -> ParsedAccti
             bankids.append(inf.bankid)
             args_[inf.accttype.lower()].append(inf.acctid)
 
-    args_["bankid"] = utils.collapseToSingle(bankids, "BANKIDs")
+    if bankids:
+        args_["bankid"] = utils.collapseToSingle(bankids, "BANKIDs")
     return dict(args_)
 
 
@@ -1470,7 +1471,8 @@ def parse_invacctinfos(acctinfos: Sequence[models.INVACCTINFO]) -> ParsedAcctinf
             brokerids.append(acctfrom.brokerid)
             args_["investment"].append(acctfrom.acctid)
 
-    args_["brokerid"] = utils.collapseToSingle(brokerids, "BROKERIDs")
+    if brokerids:
+        args_["brokerid"] = utils.collapseToSingle(brokerids, "BROKERIDs")
     return dict(args_)
 
 
